@@ -33,7 +33,14 @@ func findFunction(L *Loaded, pkgPath, key string) *ssa.Function {
 			return nil
 		}
 		T := tobj.Type()
-		if ptr {
+		if nt, ok := T.(*types.Named); ok && nt.TypeParams().Len() > 0 {
+			// method of a generic type: the generic (uninstantiated) body
+			for i := 0; i < nt.NumMethods(); i++ {
+				if m := nt.Method(i); m.Name() == name {
+					fn = sp.Prog.FuncValue(m)
+				}
+			}
+		} else if ptr {
 			fn = sp.Prog.LookupMethod(typesPointer(T), sp.Pkg, name)
 		} else {
 			fn = sp.Prog.LookupMethod(T, sp.Pkg, name)
